@@ -36,7 +36,8 @@ MANIFEST = {
             'naming this / another pilot, none) are enacted on the real '
             'Agent_0 methods with preceding no-op events interleaved.'
             '  Second session: 35% of the histories register application-like pilot callbacks (one-shot, raising, registering) before a late observer which must be told exactly what the first observer is told.'
-            '  Third session: the agent sandbox of the cause scenarios holds agent_0.out/.err/.log of several kinds (absent, plain, UTF-8, 8-bit text of another locale, binary, multi-byte character cut at the read limit); finalize raising is a violation.',
+            '  Third session: the agent sandbox of the cause scenarios holds agent_0.out/.err/.log of several kinds (absent, plain, UTF-8, 8-bit text of another locale, binary, multi-byte character cut at the read limit); finalize raising is a violation.'
+            '  Noise events include cancel requests naming nobody or another pilot as a plain string; the concurrent workload has slow application callbacks.',
     'note': 'Agent_0 is built with __new__ and a virtual clock; bootstrap_0.sh '
             'is not executed, only the file it reads (killme.signal) is '
             'checked; overlapping causes (cancel racing the run-time limit) '
@@ -370,9 +371,16 @@ def run_concurrent(case, res):
     mlock = mt.Lock()
     seen  = list()
 
+    import time
+    import random
+    crng = random.Random(case['seed'] + 11)
+
     def cb(p, state):
         with mlock:
             seen.append((mt.current_thread().name, state, p.state))
+            nap = crng.choice([0, 0, 0.0002, 0.0005, 0.001])
+        # an application callback takes its time (outside our own lock)
+        time.sleep(nap)
 
     pm.register_callback(cb)
     errors = list()
@@ -407,6 +415,11 @@ def run_concurrent(case, res):
             break
         prev = state
     top = max((s for st in case['streams'] for s in st), key=lambda s: _PV[s])
+    finals = [s for st in case['streams'] for s in st if s in FINAL_STATES]
+    if finals and pilot.state not in FINAL_STATES:
+        res.violation('concurrent/final-left', 'a final notification (%s) was '
+                      'delivered, Pilot.state is %s afterwards'
+                      % (finals, pilot.state), ctx)
     if _PV[pilot.state] < _PV[top]:
         res.violation('concurrent/state-behind', 'Pilot.state %s after all '
                       'notifications up to %s were delivered'
